@@ -411,6 +411,9 @@ func (e Engine) SoloScenario(prop string, verifSeed int64, key string) *core.Sce
 	sp := &Spec{Docs: []string{docToB64(pool[pi])}, Tasks: [][]Op{{{K: "Write", D: 0, A: parts[0], F: parts[1], I: indent}}}}
 	sc := &core.Scenario{V: 1, Property: "C07", Engine: "concur", VerifSeed: verifSeed, Run: -1, RunSeed: 1}
 	sc.Sched = verifsim.Config{Seed: 1, Policy: "serial", MaxSteps: 3000000, MapOrder: "sorted"}
+	if pi >= c07BigStart {
+		sc.Sched.MaxSteps = 2000000000
+	}
 	sc.Spec = encodeSpec(sp)
 	return sc
 }
@@ -457,7 +460,7 @@ func (e Engine) Generate(prop string, verifSeed int64, tier string, idx int) *co
 }
 
 func (e Engine) Runs(prop, tier string) int {
-	q := map[string]int{"C17": 6000, "C18": 5000, "C11": 10000, "C12": 1500, "C07": 4000}
+	q := map[string]int{"C17": 9000, "C18": 5000, "C11": 10000, "C12": 1500, "C07": 4000}
 	t := map[string]int{"C17": 100000, "C18": 80000, "C11": 200000, "C12": 60000, "C07": 60000}
 	if tier == "thorough" {
 		return t[prop]
